@@ -549,6 +549,10 @@ func genC14Plan(r *zsim.Rng) *sysPlan {
 		seq := []sysEvent{{Kind: "settle"}}
 		for i := r.Range(1, 4); i > 0; i-- {
 			x, y = r.Range(1, p.Cols), r.Range(1, p.Rows)
+			if r.Bool() {
+				// the last columns: where the scrollbar of a window at the right, top or bottom is
+				x = clampInt(p.Cols-r.Intn(3), 1, p.Cols)
+			}
 			seq = append(seq, sysEvent{Kind: "raw", Raw: []byte(fmt.Sprintf("\x1b[<0;%d;%dM", x, y)), DelayMs: r.Intn(30)})
 			seq = append(seq, sysEvent{Kind: "keys", Keys: pick(r, "alt-f", "alt-f", "alt-g", "f7"), DelayMs: r.Intn(10)})
 			for k := r.Range(1, 4); k > 0; k-- {
